@@ -173,6 +173,14 @@ def enumerate_cases(tier, seed):
                     cases.append(dict(base, tables=gl + ['IP0040T1'], subs=['111', '112', '121', '211'],
                                       order=[0, 1, 2, 3, 2, 1, 0], want=want, expanded=expanded, enc=enc,
                                       blocked=blocked))
+    # (d2) the index lists the requested table under TWO sub ids (tables[] may repeat a table id)
+    for expanded in (False, True):
+        for enc, blocked in (('latin_1', False), ('cp500', True)):
+            for want in ('IP0040T1', 'IP0075T1'):
+                tl = ['IP0040T1', 'IP0075T1', 'IP0040T1', 'IP0075T1', 'IP0006T1']
+                cases.append(dict(base, tables=tl, subs=['036', '360', '063', '603', '001'],
+                                  order=[0, 1, 2, 3, 4, 3, 2, 1, 0], want=want, expanded=expanded, enc=enc,
+                                  blocked=blocked))
     # (e) refusals
     for expanded in (False, True):
         for blocked in (False, True):
@@ -210,7 +218,7 @@ def describe(tier, seed):
                 'to the four configured tables x each requested table x compressed/expanded; (b) for every ordered pair '
                 'of tables every multiset of 0..2 rows each and EVERY interleaving; (c) every count vector 0..2 over '
                 'four tables in cyclic order with rows of an unconfigured table in between; (d) generated layouts '
-                '(adjacent 1-wide columns, gaps, single column); (e) missing trailer / unconfigured table must raise '
+                '(adjacent 1-wide columns, gaps, single column), a table listed in the index under two sub-ids; (e) missing trailer / unconfigured table must raise '
                 'MciIpmDataError; (f) through mci_ipm_param_to_csv. latin_1/cp500, VBS/1014. Oracle: exactly the '
                 'requested table\'s rows in file order with timestamp, code and every configured column equal to an '
                 'independent slicing.',
